@@ -15,7 +15,9 @@ THEOREMS = ["readVarint_consumes", "readVarint_writeVarint", "readKey_writeKey",
             "kad_request_encoding", "kad_request_roundtrip", "kad_find_node_roundtrip", "kad_put_value_roundtrip",
             "kad_get_record_roundtrip", "kad_find_node_response_roundtrip", "kad_put_value_response_roundtrip",
             "kad_get_value_response_roundtrip", "kad_add_provider_roundtrip", "kad_get_providers_request_roundtrip",
-            "kad_get_providers_response_roundtrip"]
+            "kad_get_providers_response_roundtrip",
+            "identify_no_panic", "identify_event_bounded", "identify_event_identity", "identify_own_roundtrip",
+            "identify_inbound_prefix"]
 RULE = ("valid protobuf encodings of every message kind (kademlia, identify, bitswap, noise handshake payload, public key) "
         "built by an independent Python encoder, then mutated (bit flips, truncation at every offset, splices, extreme length "
         "prefixes, overlong/overflowing varints, wrong wire types, unknown fields, groups nested up to and beyond the recursion "
@@ -24,7 +26,15 @@ RULE = ("valid protobuf encodings of every message kind (kademlia, identify, bit
         "default-valued nested messages, long repeated fields, non-ASCII strings; a few that are not values of the Rust types) "
         "are encoded by prost and by the model's generated encoder and compared byte for byte, then decoded and compared with "
         "the value (oracle); the library's own Kademlia encoders are compared byte for byte with the model's and "
-        "round-tripped through from_bytes. Non-trivial = input decodes successfully at the protobuf level with at least one "
+        "round-tripped through from_bytes. The identify protocol OBJECT (src/protocol/libp2p/identify.rs, real run() loop on a "
+        "paused clock, real Substream over an in-memory pipe): idout = answers on our outbound substream (valid messages over "
+        "an address pool with trailing /p2p of the remote, of us, of a third peer, relayed, leading /p2p, empty and invalid "
+        "addresses; payloads of 4095/4096/4097/8192 bytes; mutated payloads and frames; extreme, over-long and non-minimal "
+        "length prefixes) delivered in 1-4 chunks with pauses that stay below / reach / exceed the 10 s timeout, closed or reset "
+        "anywhere, one valid answer cut at every offset; idin = our own message for random configurations (0-200 protocols, "
+        "so that it exceeds the frame limit; listen/public address sets; peer connected or not) through carriers holding "
+        "0/1/5/100/2^20 unread bytes with reads and pauses (send timeout); idrt = our message fed, cut at a random offset, to "
+        "a second node's outbound handler. Non-trivial = input decodes successfully at the protobuf level with at least one "
         "field, or is rejected after at least one field was read, or an encoder produced bytes; distinct by SHA-256 of "
         "(op, observation)")
 TRUSTED_BASE = ["Lean 4.33 kernel", "axioms: propext, Classical.choice, Quot.sound only",
@@ -37,9 +47,17 @@ TRUSTED_BASE = ["Lean 4.33 kernel", "axioms: propext, Classical.choice, Quot.sou
                 "KademliaMessage::from_bytes / KademliaPeer::try_from / record_from_schema and of the nine KademliaMessage "
                 "encoders (Model/Wire/KadMessage.lean, KadEncoders.lean), tied by this differential run",
                 "adapters /repo/src/verif/c19*.rs, harness counting allocator, verif.py, checks/c19.py",
+                "hand-written model of identify's handlers Model/Wire/IdentifyProto.lean (on top of the C04 frame-reader model "
+                "and the generated Identify schema), tied by this differential run; the in-memory pipe of src/verif/io.rs and "
+                "tokio's paused clock stand for the transport and for time (whole seconds)",
                 "third-party parsers are parameters of the model and only sampled for panic/allocation: multiaddr, cid, "
                 "ed25519-dalek point decompression"]
-ASSUMPTIONS = ["frames handed to these decoders were already bounded by the substream codec (C04) / noise frame size (C02)",
+ASSUMPTIONS = ["frames handed to these decoders were already bounded by the substream codec (C04) / noise frame size (C02); for "
+               "identify the frame reader itself is part of the model (identify_event_bounded starts from raw substream bytes)",
+               "identify: what `Multiaddr::try_from` and the trailing component say about an address is a parameter (`info`); the "
+               "order of the listen addresses in our own message is the HashSet's (compared as a set); the peer of an identify "
+               "event is the peer the connection was authenticated for (C01) — identify.rs does not look at the message's "
+               "publicKey field, and the model says so",
                "allocation is measured as the peak of live heap bytes during the call (harness global allocator)",
                "round-trip theorems quantify over well-formed values (X.WF, decidable): what the Rust types guarantee — i32/u32 "
                "ranges, UTF-8 strings, lengths and nested encodings below 2^64; `encoded_len` is modelled as the length of the "
@@ -51,7 +69,13 @@ MANIFEST = {
             "value exists), allocation bounded by the input length for every schema (kad/identify/bitswap/noise/key_alloc_bound), "
             "number of peers taken from a message bounded by the replication factor, decode(encode m) = m for every well-formed "
             "value of every translated message (kad/identify/bitswap/noise_payload/public_key/webrtc_message_roundtrip), and "
-            "from_bytes-level round trips of the nine hand-written Kademlia encoders; tied to prost and to KademliaMessage by a "
+            "from_bytes-level round trips of the nine hand-written Kademlia encoders; for the identify protocol object (frame "
+            "reader + timeout + decoder + address filters + event): identify_no_panic (no bytes, fragmentation or timing make "
+            "the handler panic), identify_event_bounded (everything an IdentifyEvent holds on to is at most IDENTIFY_PAYLOAD_SIZE "
+            "bytes), identify_event_identity (peer = the connection's peer, reported listen addresses never name another peer, "
+            "the observed address never names anybody but us), identify_own_roundtrip (our own message, in any two-piece "
+            "fragmentation, yields exactly our configuration at the remote handler) and identify_inbound_prefix (a message above "
+            "the limit never reaches the wire); tied to prost and to KademliaMessage by a "
             "differential mutation fuzz of the decoders under catch_unwind with a counting allocator and a byte-for-byte "
             "comparison of the encoders. Partial: the internals of prost/multiaddr/cid are compared and sampled, not proved; "
             "other decoders of the property (multistream, frame lengths, peer ids, bitswap prefixes) are covered by "
@@ -63,6 +87,13 @@ MANIFEST = {
                  "instantiated by generated proofs) + differential mutation fuzzing of real decoders and encoders against the model",
     "design_ref": "DESIGN.md §7 C19",
 }
+_IDF = "src/protocol/libp2p/identify.rs"
+CONST_TABLE = [
+    ("IDENTIFY_PAYLOAD_SIZE", _IDF, r"const IDENTIFY_PAYLOAD_SIZE: usize = ([^;]+);", 4096),
+    ("IDENTIFY_READ_TIMEOUT_SECS", _IDF, r"tokio::time::timeout\(Duration::from_secs\((\d+)\), substream\.next\(\)\)", 10),
+    ("IDENTIFY_SEND_TIMEOUT_SECS", _IDF, r"tokio::time::timeout\(Duration::from_secs\((\d+)\), substream\.send_framed", 10),
+    ("IDENTIFY_DEFAULT_AGENT", _IDF, r'const DEFAULT_AGENT: &str = "([^"]*)";', b"litep2p/1.0.0", "bytes"),
+]
 KEEP_PREFIX = 0
 ALLOC_FACTOR = 160
 ALLOC_CONST = 1 << 18
@@ -545,6 +576,439 @@ def kenc_op(rng):
     return f"enc {k} {peers(1)} {peers()}"
 
 
+# ---------------------------------------------------------------- the identify protocol object (idout / idin / idrt)
+LOCAL_IDS = {1: bytes.fromhex("0024080112208a88e3dd7409f195fd52db2d3cba5d72ca6709bf1d94121bf3748801b40f6f5c"),
+             2: bytes.fromhex("0024080112208139770ea87d175f56a35466c34c7ecccb8d8a91b4ee37a25df60f5b8fc9b394"),
+             3: bytes.fromhex("002408011220ed4928c628d1c2c6eae90338905995612959273a5c63f93636c14614ac8737d1"),
+             4: bytes.fromhex("002408011220ca93ac1705187071d67b83c7ff0efe8108e8ec4530575d7726879333dbdabe7c")}
+IDENTIFY_MAX = 4096
+IDENTIFY_TIMEOUT = 10
+DEFAULT_AGENT = b"litep2p/1.0.0"
+BASES = [bytes.fromhex("047f000001061f90"), bytes.fromhex("040a000001060001"), bytes.fromhex("29" + "00" * 15 + "01" + "060002"),
+         bytes.fromhex("3603612e62060050"), bytes.fromhex("047f00000191021f90cc03")]
+
+
+def p2p(idb):
+    return uv(421) + uv(len(idb)) + idb
+
+
+def addr_class(a, ids):
+    """Classification of an address built by `id_addr`: x invalid, e empty, n no trailing /p2p, or the peer id bytes.
+    None: not one of ours."""
+    if a == b"":
+        return "e"
+    if a in (bytes.fromhex("ffff"), bytes.fromhex("047f"), bytes.fromhex("047f0000010600")):
+        return "x"
+    for base in BASES:
+        if a == base:
+            return "n"
+        for idb in ids:
+            if a == base + p2p(idb):
+                return idb
+            if a == base + p2p(idb) + uv(290) + p2p(ids[0]):      # relayed: /p2p/<relay>/p2p-circuit/p2p/<first id>
+                return ids[0]
+            if a == p2p(idb) + base:
+                return "n"
+    return None
+
+
+def id_addr(rng, ids, valid_only=False):
+    """An address: plain, with a trailing /p2p of one of `ids`, relayed, with a leading /p2p, empty, invalid."""
+    base = rng.choice(BASES)
+    r = rng.random()
+    if r < 0.3:
+        return base
+    if r < 0.7:
+        return base + p2p(rng.choice(ids))
+    if r < 0.78:
+        return base + p2p(rng.choice(ids)) + uv(290) + p2p(ids[0])
+    if r < 0.85:
+        return p2p(rng.choice(ids)) + base
+    if valid_only:
+        return base
+    return rng.choice([b"", bytes.fromhex("ffff"), bytes.fromhex("047f"), bytes.fromhex("047f0000010600")])
+
+
+def id_message(rng, ids, big=None):
+    """(payload, fields) of an identify message; `big`: pad the agent string so that the payload has that length."""
+    strs = [b"/ipfs/id/1.0.0", b"/ipfs/kad/1.0.0", b"litep2p/1.0.0", "ü".encode(), b"", b"/a"]
+    f = {"pv": None, "av": None, "pk": None, "la": [], "oa": None, "pr": []}
+    if rng.random() < 0.8:
+        f["pv"] = rng.choice(strs)
+    if rng.random() < 0.8:
+        f["av"] = rng.choice(strs)
+    if rng.random() < 0.7:
+        f["pk"] = rng.choice(ids)[2:] if rng.random() < 0.7 else rand_bytes(rng, rng.randrange(0, 40))
+    f["la"] = [id_addr(rng, ids) for _ in range(rng.choice([0, 1, 2, 4, 12]))]
+    if rng.random() < 0.75:
+        f["oa"] = id_addr(rng, ids)
+    f["pr"] = [rng.choice(strs) for _ in range(rng.choice([0, 1, 3, 8]))]
+
+    def enc():
+        out = b""
+        if f["pk"] is not None:
+            out += f_bytes(1, f["pk"])
+        out += b"".join(f_bytes(2, a) for a in f["la"])
+        out += b"".join(f_bytes(3, a) for a in f["pr"])
+        if f["oa"] is not None:
+            out += f_bytes(4, f["oa"])
+        if f["pv"] is not None:
+            out += f_bytes(5, f["pv"])
+        if f["av"] is not None:
+            out += f_bytes(6, f["av"])
+        return out
+    if big is not None:
+        f["av"] = b""
+        n = big - len(enc())
+        # the length prefix of the agent string grows with it
+        for pad in range(max(0, n - 3), n + 1):
+            f["av"] = b"a" * pad
+            if len(enc()) == big:
+                break
+    return enc(), f
+
+
+def chunked(rng, b, waits=True):
+    """Script that delivers `b` in pieces, with pauses."""
+    cuts = sorted(rng.randrange(len(b) + 1) for _ in range(rng.choice([0, 0, 1, 2, 3]))) if b else []
+    steps, last = [], 0
+    budget = rng.choice([0, 0, 4, 9, 9, 10, 11, 25]) if waits else 0
+    for c in cuts + [len(b)]:
+        steps.append("w:" + hx(b[last:c]))
+        last = c
+        if budget and rng.random() < 0.6:
+            t = rng.randrange(1, budget + 1)
+            budget -= t
+            steps.append(f"t:{t}")
+    return steps
+
+
+def idout_op(rng):
+    i, j = rng.randrange(1, 30), rng.choice([1, 2, 3])
+    ids = [peer_bytes(i), LOCAL_IDS[j], peer_bytes(i + 1)]
+    r = rng.random()
+    big = rng.choice([IDENTIFY_MAX - 1, IDENTIFY_MAX, IDENTIFY_MAX + 1, 2 * IDENTIFY_MAX]) if r < 0.12 else None
+    payload, _ = id_message(rng, ids, big)
+    if 0.12 <= r < 0.3:
+        for _ in range(rng.choice([1, 1, 2])):
+            payload = mutate(rng, payload)
+    frame = uv(len(payload)) + payload
+    if 0.3 <= r < 0.42:
+        frame = mutate(rng, frame)
+    elif 0.42 <= r < 0.47:
+        frame = rng.choice([b"\xff" * 10, b"\x80" * 9 + b"\x01", b"\x80\x00", uv(2 ** 63) + b"xx", uv(IDENTIFY_MAX + 1) + payload,
+                            uv(len(payload) + 5) + payload, b"\x00" + payload])
+    steps = chunked(rng, frame)
+    tail = rng.random()
+    if tail < 0.35:
+        steps.append("c")
+    elif tail < 0.45:
+        steps.insert(rng.randrange(len(steps) + 1), rng.choice(["c", "r"]))
+    elif tail < 0.55:
+        steps += ["t:9", "t:1"]
+    return f"idout local={j} peer={i} " + " ".join(steps)
+
+
+def id_config(rng, a_id, b_id, small_set=False):
+    """Arguments describing a local node (key number 1..3) answering peer `b`."""
+    ids = [a_id, b_id, peer_bytes(40)]
+    strs = [b"/ipfs/id/1.0.0", b"/ipfs/kad/1.0.0", b"/a", "ü→".encode(), b"litep2p/9"]
+    pv = rng.choice(strs + [b""])
+    agent = rng.choice(strs + [None, None, b""])
+    nprot = rng.choice([0, 1, 3, 3, 10, 40, 200, 400])
+    protos = [rng.choice(strs) + (b"/%d" % k if rng.random() < 0.7 else b"") for k in range(nprot)]
+    nl = rng.choice([0, 1] if small_set else [0, 1, 2, 4, 9])
+    listen = [id_addr(rng, ids, True) for _ in range(nl)]
+    public = [] if small_set else [id_addr(rng, ids, True) for _ in range(rng.choice([0, 0, 1, 3]))]
+    if small_set and listen:
+        public = [listen[0]] * rng.choice([0, 1])
+    conn = rng.choice([0, 1, 1, 1, 2])
+    ep = id_addr(rng, ids, True)
+    return (f"conn={conn} ep={hx(ep)} pv={hx(pv)} agent={'none' if agent is None else hx(agent)} "
+            f"protos={s_lb(protos)} listen={s_lb(listen)} public={s_lb(public)}")
+
+
+def idin_op(rng):
+    j, i = rng.choice([1, 2, 3]), rng.randrange(1, 30)
+    cap = rng.choice([0, 1, 5, 100, 1 << 20, 1 << 20])
+    cfg = id_config(rng, LOCAL_IDS[j], peer_bytes(i), small_set=cap < (1 << 20))
+    steps = []
+    if cap < (1 << 20):
+        budget = rng.choice([4, 9, 10, 12])
+        for _ in range(rng.choice([1, 2, 4])):
+            if rng.random() < 0.5:
+                steps.append(f"rd:{rng.choice([1, 3, 50, 5000])}")
+            elif budget:
+                t = rng.randrange(1, budget + 1)
+                budget -= t
+                steps.append(f"t:{t}")
+    return f"idin local={j} peer={i} {cfg} cap={cap} " + " ".join(steps)
+
+
+def idrt_op(rng):
+    j, b = rng.sample([1, 2, 3, 4], 2)
+    cfg = id_config(rng, LOCAL_IDS[j], LOCAL_IDS[b])
+    return f"idrt local={j} peer={b} {cfg} split={rng.choice([0, 1, 2, 3, 50, 100000])}"
+
+
+def gen_identify_case(rng, n):
+    return [rng.choice([idout_op, idout_op, idout_op, idin_op, idrt_op])(rng) for _ in range(n)]
+
+
+def identify_truncations(rng):
+    """One valid answer cut at every offset, closed / left open / timed out afterwards."""
+    i, j = 5, 2
+    ids = [peer_bytes(i), LOCAL_IDS[j], peer_bytes(i + 1)]
+    payload, _ = id_message(rng, ids)
+    frame = (uv(len(payload)) + payload)[:300]
+    ops = []
+    for k in range(len(frame) + 1):
+        ops.append(f"idout local={j} peer={i} w:{hx(frame[:k])} " + rng.choice(["c", "", "t:10", "r"]))
+    return ops
+
+
+def parse_frame(b):
+    """(payload, rest) of one unsigned-varint frame, or None."""
+    n, shift = 0, 0
+    for k, x in enumerate(b[:10]):
+        n |= (x & 0x7F) << shift
+        shift += 7
+        if x < 0x80:
+            if (x == 0 and k > 0) or len(b) - k - 1 < n:      # non-minimal prefix / incomplete
+                return None
+            return b[k + 1:k + 1 + n], b[k + 1 + n:]
+    return None
+
+
+def parse_fields(b):
+    """[(tag, bytes)] of a message made of length-delimited fields only, or None."""
+    out, k = [], 0
+    while k < len(b):
+        key, shift = 0, 0
+        while True:
+            if k >= len(b) or shift > 63:
+                return None
+            x = b[k]
+            k += 1
+            key |= (x & 0x7F) << shift
+            shift += 7
+            if x < 0x80:
+                break
+        if key & 7 != 2:
+            return None
+        ln, shift = 0, 0
+        while True:
+            if k >= len(b) or shift > 63:
+                return None
+            x = b[k]
+            k += 1
+            ln |= (x & 0x7F) << shift
+            shift += 7
+            if x < 0x80:
+                break
+        if k + ln > len(b):
+            return None
+        out.append((key >> 3, b[k:k + ln]))
+        k += ln
+    return out
+
+
+def strict_identify(payload):
+    """Fields of a canonical identify message (known tags in prost's order, valid UTF-8), or None."""
+    fs = parse_fields(payload)
+    if fs is None or [t for t, _ in fs] != sorted(t for t, _ in fs) or any(t not in (1, 2, 3, 4, 5, 6) for t, _ in fs):
+        return None
+    for t in (1, 4, 5, 6):
+        if sum(1 for x, _ in fs if x == t) > 1:
+            return None
+    try:
+        for t, v in fs:
+            if t in (3, 5, 6):
+                v.decode("utf-8")
+    except UnicodeDecodeError:
+        return None
+    one = lambda t: next((v for x, v in fs if x == t), None)
+    return {"pk": one(1), "la": [v for x, v in fs if x == 2], "pr": [v for x, v in fs if x == 3], "oa": one(4), "pv": one(5),
+            "av": one(6)}
+
+
+def canon_sent(h):
+    """`sent <hex>`: the listen addresses (a HashSet on the sender's side) in sorted order."""
+    if h == "-":
+        return h
+    try:
+        b = bytes.fromhex(h)
+    except ValueError:
+        return h
+    fr = parse_frame(b)
+    if fr is None or fr[1]:
+        return h
+    fs = parse_fields(fr[0])
+    if fs is None:
+        return h
+    las = sorted(v for t, v in fs if t == 2)
+    out, done = b"", False
+    for t, v in fs:
+        if t == 2:
+            if not done:
+                out += b"".join(f_bytes(2, a) for a in las)
+                done = True
+        else:
+            out += f_bytes(t, v)
+    return (uv(len(out)) + out).hex()
+
+
+def kvs(t):
+    return dict(x.split("=", 1) for x in t if "=" in x)
+
+
+def un_b(x):
+    return b"" if x == "-" else bytes.fromhex(x)
+
+
+def un_lb(x):
+    return [] if x in ("*", "") else [un_b(y) for y in x.split("+")]
+
+
+def parse_event(body):
+    """Fields of an `event …` observation."""
+    d = kvs(body.split())
+    lst = lambda x: [] if x == "[]" else [un_b(y) for y in x[1:-1].split(";")]
+    opt = lambda x: None if x == "none" else un_b(x)
+    return {"peer": d["peer"], "pv": opt(d["pv"]), "av": opt(d["av"]), "pr": lst(d["pr"]), "oa": un_b(d["oa"]), "la": lst(d["la"])}
+
+
+def keep_addr(a, ids, owner):
+    """identify's rule for one address (None: address not classifiable here)."""
+    c = addr_class(a, ids)
+    if c is None:
+        return None
+    return c == "n" or c == owner
+
+
+def idout_expect(t):
+    """The event a well-formed answer must produce, from the op alone; None when this oracle has no opinion
+    (malformed bytes, timeouts, early close)."""
+    a = kvs(t)
+    i, j = int(a["peer"]), int(a["local"])
+    ids = [peer_bytes(i), LOCAL_IDS[j], peer_bytes(i + 1)]
+    data, waited = b"", 0
+    for s in (x for x in t[1:] if "=" not in x):
+        if s in ("c", "r"):
+            break
+        k, v = s.split(":")
+        if k == "t":
+            waited += int(v)
+            if waited >= IDENTIFY_TIMEOUT - 1:
+                return None
+        else:
+            data += un_b(v)
+            if re.match(rb"[\x80-\xff]*\x00", data) and data[0] >= 0x80:
+                return None                       # non-minimal length prefix
+            fr = parse_frame(data)
+            if fr is not None:
+                if len(fr[0]) > IDENTIFY_MAX:
+                    return None
+                m = strict_identify(fr[0])
+                if m is None:
+                    return None
+                la = [x for x in m["la"] if keep_addr(x, ids, ids[0])]
+                if any(keep_addr(x, ids, ids[0]) is None for x in m["la"]):
+                    return None
+                oa = b""
+                if m["oa"] is not None:
+                    k = keep_addr(m["oa"], ids, ids[1])
+                    if k is None:
+                        return None
+                    oa = m["oa"] if k else b""
+                return {"peer": "remote", "pv": m["pv"], "av": m["av"], "pr": sorted(set(m["pr"])), "oa": oa, "la": la}
+    return None
+
+
+def own_expect(a, j, remote_id):
+    """(fields of the identify message node `j` must send, its encoded length)."""
+    cfg_la = sorted(set(un_lb(a["listen"]) + un_lb(a["public"])))
+    m = {"pk": LOCAL_IDS[j][2:], "la": cfg_la, "pr": un_lb(a["protos"]),
+         "oa": un_b(a["ep"]) if a.get("conn", "1") == "1" else None, "pv": un_b(a["pv"]),
+         "av": DEFAULT_AGENT if a["agent"] == "none" else un_b(a["agent"])}
+    ln = len(f_bytes(1, m["pk"])) + sum(len(f_bytes(2, x)) for x in m["la"]) + sum(len(f_bytes(3, x)) for x in m["pr"]) + \
+        (len(f_bytes(4, m["oa"])) if m["oa"] is not None else 0) + len(f_bytes(5, m["pv"])) + len(f_bytes(6, m["av"]))
+    return m, ln
+
+
+def identify_oracle(i, op, t, body, alloc, bad):
+    def v(kind, msg):
+        bad.append({"kind": kind, "msg": msg, "step": i, "op": op[:400], "out": body[:400]})
+    a = kvs(t)
+    notes = dict(re.findall(r" (#\w+) ([0-9a-f]*)", body))
+    j = int(a["local"])
+    if t[0] in ("idout", "idin") and notes.get("#local") != LOCAL_IDS[j].hex():
+        v("harness-drift", f"local peer id of key {j} is {notes.get('#local')}, the generator assumes {LOCAL_IDS[j].hex()}")
+        return
+    main = re.sub(r" #\w+( [^# ]*)?", "", body).strip()
+    if t[0] == "idout":
+        n = sum(len(un_b(s[2:])) for s in t if s.startswith("w:"))
+        if alloc is not None and alloc > ALLOC_FACTOR * n + ALLOC_CONST:
+            v("over-allocation", f"{n} bytes on the identify substream made the node allocate {alloc} bytes")
+        ids = [peer_bytes(int(a["peer"])), LOCAL_IDS[j], peer_bytes(int(a["peer"]) + 1)]
+        if main.startswith("event"):
+            e = parse_event(main)
+            size = len(e["pv"] or b"") + len(e["av"] or b"") + sum(len(x) for x in e["pr"]) + len(e["oa"]) + sum(len(x) for x in e["la"])
+            if size > IDENTIFY_MAX:
+                v("event-unbounded", f"the event holds {size} bytes, more than the {IDENTIFY_MAX}-byte frame limit")
+            if e["peer"] != "remote":
+                v("identity", f"the identified peer {e['peer']} is not the peer of the connection")
+            for x in e["la"]:
+                c = addr_class(x, ids)
+                if c in ("x", "e") or (isinstance(c, bytes) and c != ids[0]):
+                    v("identity", f"listen address {x.hex()} (class {c if isinstance(c, str) else c.hex()}) was reported for peer {ids[0].hex()}")
+            c = addr_class(e["oa"], ids) if e["oa"] else "n"
+            if c == "x" or (isinstance(c, bytes) and c != ids[1]):
+                v("identity", f"observed address {e['oa'].hex()} names another peer than the local one")
+        want = idout_expect(t)
+        if want is not None:
+            if not main.startswith("event"):
+                v("valid-answer-dropped", f"a well-formed identify answer delivered in time produced {main[:60]}")
+            elif parse_event(main) != want:
+                v("event-mismatch", f"event {parse_event(main)} differs from the message sent {want}")
+    elif t[0] == "idin":
+        m, ln = own_expect(a, j, None)
+        sent = un_b(main.split()[1]) if len(main.split()) > 1 else b""
+        steps = [s for s in t[1:] if "=" not in s]
+        if ln > IDENTIFY_MAX:
+            if sent:
+                v("oversize-sent", f"an identify message of {ln} bytes (limit {IDENTIFY_MAX}) was put on the wire")
+        elif int(a.get("cap", 1 << 20)) >= (1 << 20) and not steps:
+            fr = parse_frame(sent)
+            got = strict_identify(fr[0]) if fr and not fr[1] else None
+            if got is None:
+                v("encoder-roundtrip", f"own identify message is not one well-formed frame: {sent[:40].hex()}")
+            else:
+                got["la"] = sorted(got["la"])
+                if got != m:
+                    v("encoder-roundtrip", f"own identify message decodes to {got}, configured {m}")
+    elif t[0] == "idrt":
+        b = int(a["peer"])
+        m, ln = own_expect(a, j, LOCAL_IDS[b])
+        ev = main.split(" ==> ", 1)[1] if " ==> " in main else main
+        if ln > IDENTIFY_MAX:
+            if ev.startswith("event"):
+                v("oversize-sent", f"an identify message of {ln} bytes (limit {IDENTIFY_MAX}) was delivered")
+            return
+        if not ev.startswith("event"):
+            v("encoder-roundtrip", f"own identify message was not understood by the remote handler: {ev[:60]}")
+            return
+        e = parse_event(ev)
+        ids = [LOCAL_IDS[j], LOCAL_IDS[b], peer_bytes(40)]
+        la = sorted(x for x in m["la"] if keep_addr(x, ids, ids[0]))
+        oa = m["oa"] if m["oa"] is not None and keep_addr(m["oa"], ids, ids[1]) else b""
+        want = {"peer": "remote", "pv": m["pv"], "av": m["av"], "pr": sorted(set(m["pr"])), "oa": oa, "la": la}
+        e["la"] = sorted(e["la"])
+        if e != want:
+            v("encoder-roundtrip", f"own identify message arrives as {e}, configured {want}")
+
+
+
 def gen_enc_case(rng, n):
     return [encpb_op(rng) if rng.random() < 0.7 else kenc_op(rng) for _ in range(n)]
 
@@ -589,6 +1053,11 @@ def gen_cases(rng, tier):
     # encoders: prost's on structured random messages of every schema, the hand-written Kademlia ones
     for _ in range({"quick": 60, "thorough": 2500, "search": 200}[tier]):
         yield gen_enc_case(rng, 20)
+    # the real Identify protocol object: answers on the outbound substream, our own message, round trips
+    if tier != "search":
+        yield identify_truncations(rng)
+    for _ in range({"quick": 40, "thorough": 1500, "search": 150}[tier]):
+        yield gen_identify_case(rng, 12)
 
 
 _ALLOC = re.compile(r" alloc=(\d+)$")
@@ -603,6 +1072,17 @@ def normalize(line):
     if line.startswith("panic"):
         return "panic"
     line, _ = split_alloc(line)
+    if line.startswith(("event", "noevent", "noopen", "sent")):
+        line = re.sub(r" #\w+( [^# ]*)?", "", line).strip()
+        if line.startswith("sent"):
+            head, sep, ev = line.partition(" ==> ")
+            t = head.split()
+            head = "sent " + canon_sent(t[1] if len(t) > 1 else "-")
+            if ev.startswith("event"):          # the order of the listen addresses is the sender's HashSet order
+                e = parse_event(ev)
+                ev = re.sub(r" la=\[[^\]]*\]", " la=[" + ";".join(sorted(hx(x) for x in e["la"])) + "]", ev)
+            line = head + sep + ev
+        return line
     line = re.sub(r" #in .*$", "", line)
     if line.startswith("ok ") and " => " in line:      # rt: compare the decoded part only
         line = line.split(" => ", 1)[1]
@@ -616,7 +1096,10 @@ def model_lines(case, impl):
         o = impl[i] if impl and i < len(impl) else ""
         o, _ = split_alloc(o)
         t = op.split()
-        if t[0] == "kad":
+        if t[0] in ("idout", "idin", "idrt"):
+            notes = re.findall(r" (#\w+)( [^# ]*)?", o)
+            out.append(op + "".join(f" {k}{v.rstrip()}" for k, v in notes))
+        elif t[0] == "kad":
             tbl = o.split(" #addrs ", 1)[1] if " #addrs " in o else ""
             out.append(f"{op} #addrs {tbl}".rstrip())
         elif t[0] == "rt":
@@ -704,6 +1187,8 @@ def oracle(case, out):
             if alloc > ALLOC_FACTOR * n + ALLOC_CONST:
                 bad.append({"kind": "over-allocation", "msg": f"decoding {n} bytes allocated {alloc} bytes", "step": i,
                             "op": op[:200], "out": o[:200]})
+        if t[0] in ("idout", "idin", "idrt") and body != "bad-op":
+            identify_oracle(i, op, t, body, alloc, bad)
         if t[0] == "encpb":
             want = expected_encpb(op)
             if want is not None:
@@ -728,6 +1213,13 @@ def stats(case, out, acc):
         t = op.split()
         kind = t[0] + (":" + t[1] if t[0] in ("pb", "rt", "encpb", "enc") else "")
         body, alloc = split_alloc(o)
+        if t[0] in ("idout", "idin", "idrt"):
+            cls = "event" if "event peer=" in body else "nothing-sent" if body.startswith("sent - ") else \
+                "sent" if body.startswith("sent") else "noevent"
+            bump(acc, f"{kind}:{cls}")
+            if alloc is not None:
+                acc["max_alloc_identify"] = max(acc.get("max_alloc_identify", 0), alloc)
+            continue
         res = "ok" if body.startswith("ok") or (t[0] == "kad" and not body.startswith("none")) else "rejected"
         bump(acc, f"{kind}:{res}")
         if alloc is not None:
@@ -739,7 +1231,8 @@ def stats(case, out, acc):
 def nontrivial(case, out):
     return any(o.startswith("ok ") or o.startswith(("findnode", "getrecord", "putvalue", "addprovider", "getproviders")) for o in out) \
         and any(o.startswith(("err", "none")) for o in out) \
-        or any(" ==> ok" in o or " #in " in o for o in out)
+        or any(" ==> ok" in o or " #in " in o for o in out) \
+        or (any(o.startswith(("event", "sent")) for o in out) and any(o.startswith(("noevent", "sent - ")) for o in out))
 
 
 def matches_known(k, v):
